@@ -569,6 +569,10 @@ func genBe(r *hx.Rng, tier string, st *hx.Stats, slow *int, b *budgets) string {
 	if backend == "otlp" {
 		fails = append(fails, "P", "P") // 200 with a partial-success body that rejects data points: an error, never retried
 	}
+	if backend != "cloudwatch" && *slow < 10 && r.Chance(1, 3) {
+		// an attempt that gets no answer until the client's own time-out (0.4 s each: rationed like the slow ones)
+		fails = append(fails, "T", "T")
+	}
 	// "a failed flush does not prevent the following flushes": a quarter of the uncancelled cases flush two or three
 	// times through the same backend instance (same scripts each time; every repetition must end the same way)
 	if cancel == "none" && reps == 1 && r.Chance(1, 4) {
@@ -585,6 +589,9 @@ func genBe(r *hx.Rng, tier string, st *hx.Stats, slow *int, b *budgets) string {
 		case "no":
 			if r.Chance(1, 3) {
 				scripts[i] = hx.Pick(r, fails)
+				if scripts[i] == "T" {
+					*slow++
+				}
 				anyFail = true
 			} else {
 				scripts[i] = hx.Pick(r, []string{"2", "2", "2", "S"})
@@ -596,7 +603,11 @@ func genBe(r *hx.Rng, tier string, st *hx.Stats, slow *int, b *budgets) string {
 			}
 			w := ""
 			for j := 0; j < n; j++ {
-				w += hx.Pick(r, []string{"5", "H", "4"})
+				if backend != "cloudwatch" && r.Chance(1, 5) {
+					w += "T"
+				} else {
+					w += hx.Pick(r, []string{"5", "H", "4"})
+				}
 			}
 			if n > 0 {
 				*slow++
